@@ -37,4 +37,21 @@ theorem body_announces_only_advertised (b64 : List Nat → Option (List Nat)) (s
   rw [(reply_notices_exact_body b64 st st' s keffs h).1] at he
   exact (List.mem_filter.mp he).1
 
+/-- **The start-up LTS runs the regenerated body.**  The `.input` label of the start-up system of
+`vaxis.New` (`Model/Startup.lean`, over which `caps_exact`, `caps_sound`, `startup_completes` and
+`caps_exact_attained*` are proved) is: the goroutine at its `select` takes the sequence, the
+regenerated body of `handleSequence` is run on it (`Model/InputBody.runHs`), its effects become the
+pending effects, the sequence is recorded — so those theorems are statements about the source as
+extracted, not only about its hand transcription. -/
+theorem startup_input_is_body (p : Params) (o : VaxisModel.Spec.Startup.Opts) (st : VaxisModel.Model.Startup.St) (q : Seq)
+    (h : st.sys.pend = []) :
+    VaxisModel.Model.Startup.next p o st (.input q) =
+      match runHs p.b64 st.sys.vs q with
+      | .ok (vs, keffs) => some (.ok { st with sys := { st.sys with vs := vs, pend := keffs.map (·.1) }, ins := st.ins ++ [q] })
+      | .error _ => some (.error .indexOutOfRange) := by
+  simp only [VaxisModel.Model.Startup.next, VaxisModel.Props.C03Body.lts_input_is_body p st.sys q h]
+  cases runHs p.b64 st.sys.vs q with
+  | error e => rfl
+  | ok r => rfl
+
 end VaxisModel.Props.C07Body
